@@ -1443,13 +1443,19 @@ trait RecordD {
                                 assert(run_ok(ff, p0, k0) && fmt_err(e, ff, gstart(ff, p0, k0), true_line(ff, gstart(ff, p0, k0))));
                             }
                         }
-//@after /Err\(e\) => \{/ nth=1
-                        proof {
-                            let (ff, p0) = (old(self).f(), old(self).cursor());
-                            if old(self).clean() && !old(self).poisoned() && fmt_variant(e) {
-                                assert(run_ok(ff, p0, k0) && fmt_err(e, ff, gstart(ff, p0, k0), true_line(ff, gstart(ff, p0, k0))));
-                            }
+//@at depth=3 kw=let nth=0 expect="let \w+ = match self\.search\(\)" call=search
+                proof {
+                    // whatever format error search() reports for the group in the buffer is the error of the k0-th group of the file
+                    let (ff, p0) = (old(self).f(), old(self).cursor());
+                    let (bb, s, ln) = (self.b(), self.buf_pos.pos.0 as int, self.position.line as int);
+                    if old(self).clean() && !old(self).poisoned() {
+                        assert forall|e2: Error| #[trigger] verr(e2, bb, s, ln) && c4(bb, s) < bb.len() implies
+                            run_ok(ff, p0, k0) && fmt_err(e2, ff, gstart(ff, p0, k0), true_line(ff, gstart(ff, p0, k0))) by {
+                            lemma_chain_bounds(bb, s);
+                            lemma_group_lift(ff, self.base(), bb, s);
                         }
+                    }
+                }
 //@after /Ok\(true\) => \{/
                         proof { if self.buf_reader.cap() > cap_before {
                                 grow_at = k0;
